@@ -78,7 +78,7 @@ func faultRun(t *rapid.T) {
 }
 
 func faultProbeRun(t *rapid.T) {
-	p := genProgram(t, genOpts{probes: true, noise: true, splitTags: true, probePct: 35, mapRegions: true})
+	p := genProgram(t, genOpts{probes: true, noise: true, splitTags: true, probePct: 35, mapRegions: true, tolerant: true, toleratedOnly: true})
 	mp := simrt.MapPolicy(uni(t, "maporder", 4))
 	mseed := rapid.Uint64().Draw(t, "mapseed")
 	count("maporder_"+mp.String(), 1)
@@ -293,8 +293,16 @@ func faultProbeRun(t *rapid.T) {
 				want = got
 				count("c15_wrong_kind_line_not_compared", 1)
 			}
+			if got != want && site.AltLine != 0 && got == site.AltLine && fk != fkWrongKind {
+				// a statement that begins on a later line than its tag: the statement's own line is accepted too
+				count("c15_statement_line_accepted", 1)
+				want = got
+			}
 			if got != want {
 				ex["expected_line"] = want
+				if site.AltLine != 0 {
+					ex["also_accepted_line"] = site.AltLine
+				}
 				ex["reported_line"] = got
 				violate(t, "C15", "error-names-line-of-failing-tag", "c15:wrong-line:"+lineClass(site), det(ex))
 				continue
@@ -432,7 +440,7 @@ func tolerantRun(t *rapid.T) {
 
 // checkLine asserts C15 on an error whose failing tag is on line want of the
 // main template, then the shift relation through rerender.
-func checkLine(t *rapid.T, p *Program, err error, want int, cls string, det func() map[string]interface{}, rerender func(main string) (string, error)) {
+func checkLine(t *rapid.T, p *Program, err error, want int, cls string, det func() map[string]interface{}, rerender func(main string) (string, error), alt ...int) {
 	count("c15_line_checks", 1)
 	if want > 1 {
 		seen("c15", hashStr(p.Main, cls))
@@ -443,6 +451,10 @@ func checkLine(t *rapid.T, p *Program, err error, want int, cls string, det func
 		return
 	}
 	got, _ := strconv.Atoi(m[1])
+	if got != want && len(alt) > 0 && alt[0] != 0 && got == alt[0] {
+		count("c15_statement_line_accepted", 1)
+		want = got
+	}
 	if got != want {
 		d := det
 		violate(t, "C15", "error-names-line-of-failing-tag", "c15:wrong-line:main:"+cls, func() map[string]interface{} {
@@ -635,7 +647,7 @@ func naturalFailRun(t *rapid.T) {
 			r := newRuntime(&sp, true)
 			setOrder(mp, mseed)
 			return r.render()
-		})
+		}, p.FailAltLine)
 	}
 }
 
